@@ -1882,10 +1882,11 @@ class FileIterator(FileStorageFormatter):
             # small enough, otherwise we'll fail.
             file.seek(self._file_size - 8)
             l_ = u64(file.read(8))
-            if not (l_ + 12 <= self._file_size and
+            if not (TRANS_HDR_LEN <= l_ and
+                    l_ + 12 <= self._file_size and
                     self._read_num(self._file_size - l_) == l_):
                 if self._file_size < (1 << 20):
-                    return self._scan_foreward(start)
+                    return self._scan_forward(pos1, start)
                 raise ValueError("Can't find last transaction in large file")
             pos2 = self._file_size - l_ - 8
             file.seek(pos2)
@@ -1912,7 +1913,14 @@ class FileIterator(FileStorageFormatter):
                      self._file_name, pos, start)
         while 1:
             # Read the transaction record
-            h = self._read_txn_header(pos)
+            try:
+                h = self._read_txn_header(pos)
+            except CorruptedDataError:
+                # We ran into the end of the file or into a partially
+                # written transaction: there is no complete transaction
+                # at or after start.  __next__ will stop here.
+                self._pos = pos
+                return
             if h.tid >= start:
                 self._pos = pos
                 return
